@@ -21,36 +21,76 @@ pub trait Modulus {
 
 impl Modulus for f64 {
     fn modulus(self, divisor: f64) -> f64 {
-        ((self % divisor) + divisor) % divisor
+        let r = self % divisor;
+        if (r < 0.0 && divisor > 0.0) || (r > 0.0 && divisor < 0.0) {
+            let s = r + divisor;
+            // r + divisor can round up to divisor itself when r is tiny; stay inside the half-open range
+            if s == divisor {
+                0.0
+            } else {
+                s
+            }
+        } else {
+            r
+        }
     }
 }
 
 impl Modulus for f32 {
     fn modulus(self, divisor: f32) -> f32 {
-        ((self % divisor) + divisor) % divisor
+        let r = self % divisor;
+        if (r < 0.0 && divisor > 0.0) || (r > 0.0 && divisor < 0.0) {
+            let s = r + divisor;
+            // r + divisor can round up to divisor itself when r is tiny; stay inside the half-open range
+            if s == divisor {
+                0.0
+            } else {
+                s
+            }
+        } else {
+            r
+        }
     }
 }
 
 impl Modulus for i64 {
     fn modulus(self, divisor: i64) -> i64 {
-        ((self % divisor) + divisor) % divisor
+        if divisor == -1 {
+            // every integer is a multiple of -1; also avoids the overflow of MIN % -1
+            return 0;
+        }
+        let r = self % divisor;
+        if (r < 0 && divisor > 0) || (r > 0 && divisor < 0) {
+            r + divisor
+        } else {
+            r
+        }
     }
 }
 
 impl Modulus for i32 {
     fn modulus(self, divisor: i32) -> i32 {
-        ((self % divisor) + divisor) % divisor
+        if divisor == -1 {
+            // every integer is a multiple of -1; also avoids the overflow of MIN % -1
+            return 0;
+        }
+        let r = self % divisor;
+        if (r < 0 && divisor > 0) || (r > 0 && divisor < 0) {
+            r + divisor
+        } else {
+            r
+        }
     }
 }
 
 impl Modulus for u64 {
     fn modulus(self, divisor: u64) -> u64 {
-        ((self % divisor) + divisor) % divisor
+        self % divisor
     }
 }
 
 impl Modulus for u32 {
     fn modulus(self, divisor: u32) -> u32 {
-        ((self % divisor) + divisor) % divisor
+        self % divisor
     }
 }
